@@ -7,7 +7,8 @@ cd /repo || exit 2
 if [ -n "$(git status --porcelain --untracked-files=no)" ]; then echo "TRY-ERROR /repo has local modifications"; exit 2; fi
 if ! git apply "$PATCH"; then echo "TRY-ERROR patch does not apply"; exit 2; fi
 VERIF_ROOT_REPLAYS=1 /verif/check "$PROP" "$@" > /tmp/try.$$.out 2>&1; rc=$?
-git checkout -q -- . 
+git checkout -q -- .
+git clean -fdq -- src tests examples   # (patches that add files)
 grep -E "^(violation class|VIOLATION|KNOWN-FINDING|HARNESS-ERROR|OK |runs=)" /tmp/try.$$.out | cut -c1-400
 echo "TRY-RESULT patch=$PATCH property=$PROP exit=$rc"
 rm -f /tmp/try.$$.out
